@@ -710,6 +710,102 @@ Proof.
   rewrite Forall_forall in Ix, Iy. destruct Ht as [Ht|Ht]; [rewrite (Ix t Ht)|rewrite (Iy t Ht), orb_true_r]; reflexivity.
 Qed.
 
+(* any number of operands: the supports are united pairwise from the left (time_support.union(..).union(..)); the
+   constructor behind every step trims only in the microsecond before a START of one of its inputs, and the starts of
+   a union are starts of its inputs - so a timestamp that does not lie in the closed microsecond [p - 1 us, p] before
+   a start p of any operand's support stays covered through the whole fold *)
+From Verif Require Import Proofs.BaseLemmas Proofs.FixIsetProofs Proofs.FixIsetCover Proofs.C01Top Proofs.UnionProofs.
+(* starts of the fixed set come from the input pairs *)
+Lemma close_pending_starts ns ne nxt s : In s (starts (close_pending ns ne nxt)) -> s = ns.
+Proof.
+  unfold close_pending. destruct (ns <? _); simpl; [intros [H|[]]; symmetry; exact H|intros []].
+Qed.
+
+Lemma fix_go_starts l : forall pend s, In s (starts (fix_go pend l)) ->
+  (match pend with Some (ns, _, _) => s = ns | None => False end) \/ In s (map fst l).
+Proof.
+  induction l as [|[a e] r IH]; intros pend s H; simpl in *.
+  - destruct pend as [[[ns ne] ce]|]; [left; eapply close_pending_starts; exact H|destruct H].
+  - destruct pend as [[[ns ne] ce]|].
+    + destruct (a <? ce).
+      * destruct (IH _ _ H) as [H'|H']; [left; exact H'|right; right; exact H'].
+      * unfold starts in H. rewrite map_app in H. apply in_app_or in H. destruct H as [H|H].
+        -- left. eapply close_pending_starts. exact H.
+        -- destruct (e <=? a); destruct (IH _ _ H) as [H'|H']; try (destruct H'; fail);
+           try (right; right; exact H'). right; left; symmetry; exact H'.
+    + destruct (e <=? a); destruct (IH _ _ H) as [H'|H']; try (destruct H'; fail);
+      try (right; right; exact H'). right; left; symmetry; exact H'.
+Qed.
+
+Lemma iset_union_fix A B : canonical A -> canonical B -> iset_union A B = fix_iset (k_union A B).
+Proof.
+  intros Ha Hb. pose proof (union_raw_wf A B Ha Hb) as Hw.
+  destruct (weakly_canonical_sorted _ Hw) as (S1 & S2 & S3).
+  unfold iset_union, mk_iset_pairs, mk_iset.
+  rewrite (sortedZ_sortZ_id _ S1), (sortedZ_sortZ_id _ S2), combine_map_fst_snd. reflexivity.
+Qed.
+
+Lemma iset_union_starts A B s : canonical A -> canonical B ->
+  In s (starts (iset_union A B)) -> In s (starts A) \/ In s (starts B).
+Proof.
+  intros Ha Hb H. rewrite (iset_union_fix A B Ha Hb) in H. unfold fix_iset in H.
+  destruct (fix_go_starts _ _ _ H) as [[]|H'].
+  pose proof (union_starts_ends A B Ha Hb) as HS. rewrite Forall_forall in HS.
+  apply in_map_iff in H'. destruct H' as (iv & <- & Hiv). exact (proj1 (HS iv Hiv)).
+Qed.
+
+(* x does not lie in the closed microsecond before a start of A *)
+Definition clear_of_starts (x : Z) (A : iset) : Prop := forall p, In p (starts A) -> x < p - us \/ p < x.
+
+Lemma iset_union_mem_clear A B x : canonical A -> canonical B -> clear_of_starts x A -> clear_of_starts x B ->
+  mem x A || mem x B = true -> mem x (iset_union A B) = true.
+Proof.
+  intros Ha Hb Ca Cb Hm. rewrite <- (union_mem A B x Ha Hb) in Hm.
+  pose proof (union_raw_wf A B Ha Hb) as Hw.
+  destruct (weakly_canonical_sorted _ Hw) as (S1 & S2 & S3).
+  rewrite (iset_union_fix A B Ha Hb).
+  destruct (fix_iset_cover_complete _ x S1 S2 S3 Hm) as [H|(p & Hp & Hx)]; [exact H|exfalso].
+  pose proof (union_starts_ends A B Ha Hb) as HS. rewrite Forall_forall in HS.
+  apply in_map_iff in Hp. destruct Hp as (iv & <- & Hiv).
+  destruct (proj1 (HS iv Hiv)) as [H|H]; [destruct (Ca _ H)|destruct (Cb _ H)]; lia.
+Qed.
+
+Lemma fold_union_mem_clear x L : forall S, canonical S -> Forall canonical L ->
+  clear_of_starts x S -> Forall (clear_of_starts x) L ->
+  (mem x S = true \/ Exists (fun B => mem x B = true) L) -> mem x (fold_left iset_union L S) = true.
+Proof.
+  induction L as [|B r IH]; intros S Hs HL Cs CL Hm; simpl.
+  - destruct Hm as [H|H]; [exact H|inversion H].
+  - inversion HL; subst. inversion CL; subst.
+    apply IH; try assumption.
+    + apply mk_iset_pairs_canonical.
+    + intros p Hp. destruct (iset_union_starts S B p Hs H1 Hp) as [H|H]; [apply Cs|apply H3]; exact H.
+    + destruct Hm as [H|H].
+      * left. apply iset_union_mem_clear; try assumption. rewrite H. reflexivity.
+      * inversion H; subst.
+        -- left. apply iset_union_mem_clear; try assumption. rewrite H5. apply orb_true_r.
+        -- right. assumption.
+Qed.
+
+Theorem all_in_union_all {V} (x0 : ts V) (rest : list (ts V)) :
+  Forall WF (x0 :: rest) ->
+  Forall (fun t => Forall (fun x => clear_of_starts t (sup_of x)) (x0 :: rest)) (concat (map t_of (x0 :: rest))) ->
+  all_in (concat (map t_of (x0 :: rest))) (fold_left iset_union (map sup_of rest) (sup_of x0)).
+Proof.
+  intros Hwf Hc. unfold all_in. rewrite Forall_forall in *. intros t Ht.
+  pose proof (Hc t Ht) as Ct. rewrite Forall_forall in Ct.
+  apply in_concat in Ht. destruct Ht as (l & Hl & Htl). apply in_map_iff in Hl. destruct Hl as (x & <- & Hx).
+  assert (Hm : mem t (sup_of x) = true).
+  { pose proof (wf_in _ (Hwf x Hx)) as Hi. unfold all_in in Hi. rewrite Forall_forall in Hi. apply Hi. exact Htl. }
+  apply fold_union_mem_clear.
+  - apply wf_canon. apply Hwf. left. reflexivity.
+  - apply Forall_forall. intros B HB. apply in_map_iff in HB. destruct HB as (y & <- & Hy). apply wf_canon. apply Hwf. right. exact Hy.
+  - apply Ct. left. reflexivity.
+  - apply Forall_forall. intros B HB. apply in_map_iff in HB. destruct HB as (y & <- & Hy). apply Ct. right. exact Hy.
+  - destruct Hx as [<-|Hx]; [left; exact Hm|right].
+    apply Exists_exists. exists (sup_of x). split; [apply in_map; exact Hx|exact Hm].
+Qed.
+
 (* ------------------------------------------------------------------------------------------ *)
 (* witnesses: clauses of the statement that are FALSE of the faithful model (each replays on /repo) *)
 Ltac wf_concrete := constructor; cbn;
@@ -764,6 +860,56 @@ Proof.
          (fun a b => NArr (mkArr (shape b) (map (Z.add (hd 0 (cells a))) (cells b)))).
   eexists. split; [wf_concrete|]. split; [wf_concrete|]. split; [reflexivity|]. split; [vm_compute; reflexivity|].
   repeat split.
+Qed.
+
+(* _split_tsd's literal `axis == 0`: axis 0 is the model's split_tsd ... *)
+Lemma split_axis0 {V W} (x : ts V) b ios pcs : @split_tsd_axis V W x b ios 0 pcs = split_tsd x b ios.
+Proof. reflexivity. Qed.
+
+(* ... and axis = -1 on a Tsd, the same axis, gives back NumPy's raw pieces: the timestamps are not split with the data *)
+Lemma split_negative_axis_witness :
+  exists (x : ts Z) (r1 r2 : ts Z),
+    WF x /\ ndim (dat x) = 1%nat
+    /\ @split_tsd Z unit x false (inl 2%nat) = inl [OTs r1; OTs r2] /\ t_of r1 ++ t_of r2 = t_of x
+    /\ @split_tsd_axis Z unit x false (inl 2%nat) (-1) [dat r1; dat r2] = inl [OArr (dat r1); OArr (dat r2)].
+Proof.
+  exists (w_tsd [0; 10; 20; 30] [(-1, 31)] [5; 6; 7; 8]).
+  eexists. eexists. split; [wf_concrete|]. split; [reflexivity|]. split; [vm_compute; reflexivity|]. split; reflexivity.
+Qed.
+
+Definition w_frame (t : list Z) (sup : iset) (nc : nat) (c : list Z) (lab : list Z) : ts Z := mkTs CFrame t sup (mkArr [length t; nc] c) lab.
+
+(* np.hstack of two frames whose first timestamps are 0 and 1 ns: _check_time_equals (atol = one precision step) calls the
+   time axes equal and the result carries the first operand's timestamps, which are not the second operand's *)
+Lemma concat_time_1ns_witness :
+  exists (x y r : ts Z) (outp : arr Z),
+    WF x /\ WF y /\ sup_of y = sup_of x /\ t_of y <> t_of x /\ shape outp = [2; 4]%nat /\ wf_arr outp
+    /\ @concat_tsd Z unit [inl x; inl y] outp = OTs r /\ t_of r = t_of x /\ t_of r <> t_of y.
+Proof.
+  exists (w_frame [0; 10] [(-1, 11)] 2 [1; 2; 3; 4] [7; 8]), (w_frame [1; 10] [(-1, 11)] 2 [5; 6; 7; 8] [9; 9]).
+  eexists. exists (mkArr [2; 4]%nat [1; 2; 5; 6; 3; 4; 7; 8]).
+  split; [wf_concrete|]. split; [wf_concrete|]. split; [reflexivity|]. split; [discriminate|]. split; [reflexivity|]. split; [reflexivity|].
+  split; [vm_compute; reflexivity|]. split; [reflexivity|discriminate].
+Qed.
+
+(* three operands, timestamps strictly increasing, supports [-1,5] us, [5,7] us, [4.5,9] us: their union is the single
+   interval [-1,9] us and every timestamp lies in an operand's support; the pairwise fold trims [-1,4] first, the third
+   support then starts at 4.5: the sample at 4.3 us is dropped and is not in the result's support *)
+Lemma concat_fold_union_witness :
+  exists (x y z r : ts Z) (t0 : Z),
+    WF x /\ WF y /\ WF z /\ strictly_incb (t_of x ++ t_of y ++ t_of z) = true
+    /\ (forall t, In t (t_of x ++ t_of y ++ t_of z) -> mem t (sup_of x) || mem t (sup_of y) || mem t (sup_of z) = true)
+    /\ (forall t, -1000 <= t <= 9000 -> mem t (sup_of x) || mem t (sup_of y) || mem t (sup_of z) = true)
+    /\ @concat_tsd Z unit [inl x; inl y; inl z] (cat0 [dat x; dat y; dat z]) = OTs r
+    /\ In t0 (t_of x) /\ ~ In t0 (t_of r) /\ mem t0 (sup_of r) = false.
+Proof.
+  exists (w_tsd [0; 4300] [(-1000, 5000)] [1; 2]), (w_tsd [6000; 6500] [(5000, 7000)] [3; 4]), (w_tsd [8000; 8500] [(4500, 9000)] [5; 6]).
+  eexists. exists 4300.
+  split; [wf_concrete|]. split; [wf_concrete|]. split; [wf_concrete|]. split; [reflexivity|].
+  split. { intros t Ht. simpl in Ht. repeat (destruct Ht as [<-|Ht]; [reflexivity|]). destruct Ht. }
+  split. { intros t Ht. cbn. unfold inb; simpl. lia. }
+  split; [vm_compute; reflexivity|]. split; [right; left; reflexivity|]. split; [|reflexivity].
+  simpl. intros H. repeat (destruct H as [H|H]; [discriminate|]). exact H.
 Qed.
 
 (* ------------------------------------------------------------------------------------------ *)
